@@ -49,6 +49,13 @@ def parse_stmt(body, binds):
         if inner != TOGGLE:
             raise T.TranslateError("negation arm not understood: %s" % b[:200])
         return "SToggle"
+    # the loops written with Iterator::any / Iterator::all
+    b = re.sub(r"^\{ refset\.iter\(\) ?\.any\(\|(\w+)\| self\.test\(operator, \1, resource\)\) \}$",
+               "{ for reftextsel in refset.iter() { if self.test(operator, reftextsel, resource) { return true; } } false }", b)
+    b = re.sub(r"^\{ if refset\.is_empty\(\) \{ return false; \} refset\.iter\(\) ?\.all\(\|(\w+)\| self\.test\(operator, \1, resource\)\) \}$",
+               "{ if refset.is_empty() { return false; } for reftextsel in refset.iter() { if !self.test(operator, reftextsel, resource) { return false; } } true }", b)
+    b = re.sub(r"^\{ !refset\.is_empty\(\) && refset\.iter\(\) ?\.all\(\|(\w+)\| self\.test\(operator, \1, resource\)\) \}$",
+               "{ if refset.is_empty() { return false; } for reftextsel in refset.iter() { if !self.test(operator, reftextsel, resource) { return false; } } true }", b)
     # the loop variable may have any name
     if re.match(r"^\{ for (\w+) in refset\.iter\(\) \{ if self\.test\(operator, \1, resource\) \{ return true; \} \} false \}$", b):
         return "SAny"
